@@ -111,16 +111,22 @@ def gen_prog_items(seed, n):
 # ---------------------------------------------------------------------------------------------
 # the operand grid (C09)
 
-PRELUDE = "CONSTANT(kc, 5)\nCONSTANT(kbig, 65535)\nCONSTANT(kneg, -3)\nDLABEL(dl)\nINTEGER(1)\nLABEL(lb)\n"
+# constants at the boundary values of every operand range, an OPCODE word that is no instruction (0x0123), one that is SWI
+# (0x2203), and a constant defined by another constant
+CONST_VALUES = {"kc": 5, "kbig": 65535, "kneg": -3, "k0": 0, "k15": 15, "k16": 16, "k31": 31, "k32": 32, "k64": 64, "k65": 65,
+                "k127": 127, "k128": 128, "kn128": -128, "kn129": -129, "k255": 255, "k256": 256, "kmin": -32768, "kunk": 0x0123,
+                "kswi": 0x2203}
+PRELUDE = ("".join("CONSTANT({}, {})\n".format(k, v) for k, v in CONST_VALUES.items()) + "CONSTANT(kk, k64)\nCONSTANT(kk2, kk)\n"
+           + "DLABEL(dl)\nINTEGER(1)\nLABEL(lb)\n")
 KINDS = {
     "reg": ["R0", "R5", "r15", "Rt", "FP", "SP", "PC_ret", "fp_alt"],
     "badreg": ["R16", "R007"],
     "int": ["0", "1", "-1", "15", "16", "31", "32", "63", "64", "65", "127", "128", "-128", "-129", "255", "256",
             "32767", "-32768", "-32769", "65535", "65536", "0x10", "0b101", "0o17", "'a'"],
-    "str": ['"hi"', '""'],
+    "str": ['"hi"', '""', '"\\777\\x80\\0"'],
     "label": ["lb"],
     "dlabel": ["dl"],
-    "const": ["kc", "kneg", "kbig"],
+    "const": list(CONST_VALUES) + ["kk", "kk2"],
     "undef": ["nosuch", "pc", "PC"],
 }
 
@@ -190,6 +196,9 @@ RULE_PROGRAMS = [
     "SET(R1, 1)\nINTEGER(5)\n", "LABEL(x)\nINTEGER(5)\n", "INTEGER(5)\nLABEL(x)\nSET(R1, x)\n",
     "SET(R1, k)\nCONSTANT(k, 5)\n", "CONSTANT(k, 5)\nSET(R1, k)\n", "CONSTANT(k, 5)\nDSKIP(k)\nDLABEL(d)\nINTEGER(1)\nSET(R1, d)\n",
     "DSKIP(16382)\nINTEGER(1)\n", "DSKIP(16383)\n", "DSKIP(16383)\nINTEGER(1)\n", "DSKIP(65535)\nDLABEL(d)\nSET(R1,d)\n",
+    "CONSTANT(m, 5)\nCONSTANT(n, m)\nSET(R1, n)\n", "CONSTANT(n, m)\nCONSTANT(m, 5)\nSET(R1, n)\n", "CONSTANT(n, n)\n",
+    "LABEL(l)\nCONSTANT(n, l)\n", "CONSTANT(m, 3)\nCONSTANT(n, m)\nDLABEL(a)\nDSKIP(n)\nDLABEL(b)\nINTEGER(1)\nSET(R1, b)\n",
+    "CONSTANT(m, 70000)\nCONSTANT(n, m)\nSET(R1, n)\n", "CONSTANT(w, 0x0123)\nOPCODE(w)\n", "CONSTANT(w, 0x3180)\nOPCODE(w)\n",
     "SWI(3)\n", "RTI()\n", "OPCODE(0x2200)\n", "OPCODE(0x2300)\n", "CONSTANT(c, 0x2203)\nOPCODE(c)\n", "OPCODE(0xffff)\n",
     "OPCODE(0x2400)\n", "OPCODE(0x0100)\n", "print_reg(R1)\n", "println(\"x\")\n", "__eval(\"1\")\n",
     "INC(R1, lb)\nLABEL(lb)\n", "BR(lb)\nLABEL(lb)\n", "BR(d)\n", "DLABEL(d)\nINTEGER(1)\nBR(d)\n", "CONSTANT(c,1)\nBR(c)\n",
